@@ -293,7 +293,16 @@ def run_case(case, ctx):
                         continue
                     ext_lo, ext_hi = loc[on].min(0), loc[on].max(0)
                     span = hi - lo
-                    if np.any(ext_lo - lo > 0.03 * np.maximum(span, body.L * 1e-9) + 1e-12) or np.any(hi - ext_hi > 0.03 * np.maximum(span, body.L * 1e-9) + 1e-12):
+                    allow = 0.03 * np.maximum(span, body.L * 1e-9) + 1e-12
+                    if s["cls"] == "CylinderSegment":
+                        # the arc is drawn as a polygon with the documented vertex count max(5, int(50*|phi2-phi1|/360)):
+                        # an extremum of the arc between two drawn vertices is missed by at most the sagitta (thin shells:
+                        # the sagitta can exceed 3 % of the span; thorough tier, seed 3)
+                        _r1, _r2, _h, _p1, _p2 = (float(x) for x in s["dimension"])
+                        _nv = max(5, int(50 * abs(_p1 - _p2) / 360))
+                        _sag = 1.05 * _r2 * (1.0 - np.cos(np.deg2rad(abs(_p2 - _p1)) / (2 * (_nv - 1))))
+                        allow = allow + np.array([_sag, _sag, 0.0])
+                    if np.any(ext_lo - lo > allow) or np.any(hi - ext_hi > allow):
                         out.append(Violation({**sig0, "sub": "drawn_extent", "cls": s["cls"]},
                                              f"{s['cls']} at path index {m}: drawn vertices span {ext_lo.tolist()}..{ext_hi.tolist()}, body spans {lo.tolist()}..{hi.tolist()}"))
             if not np.all(explained):
